@@ -213,7 +213,9 @@ impl PoolGen {
             2 => pool_fee(9, 0, 0, &[]),
             _ => pool_fee(0, 0, 0, &[0, 4]),
         };
-        s.push(create_pool_op(w, &u1, &["uusdc", "udai"], PoolType::StableSwap { amp: 2000 }, zf, Some("z618")));
+        // ... and in every fourth shard its amplification lies above 1e6 (pool creation accepts any amp > 0)
+        let zamp = if self.fee_variant % 4 == 3 { 5_000_000 } else { 2000 };
+        s.push(create_pool_op(w, &u1, &["uusdc", "udai"], PoolType::StableSwap { amp: zamp }, zf, Some("z618")));
         // a nearly worthless 18-decimals token against a precious 6-decimals one: the base-unit
         // price lies below 1e-18
         s.push(create_pool_op(w, &u0, &["ueth", "uusdt"], PoolType::ConstantProduct, pool_fee(0, 30, 0, &[]), Some("lop")));
